@@ -3,6 +3,9 @@
 
 use std::sync::Mutex;
 
+/// Construction and decoding of stored query origins from plain data.
+pub use crate::zalsa_local::verif_edges as edges;
+
 /// One step of the claim / wait / transfer protocol, as recorded by the implementation itself.
 #[derive(Clone, Debug, PartialEq, Eq)]
 pub enum TraceEvent {
